@@ -214,7 +214,31 @@ def run_check_c17(tier, seed, workers=None, cases=None):
         import random as _r
         rr = _r.Random(derive(seed, "fresh-sample"))
         cand = [i for i in sorted(digests[H[0]]) if i >= per]          # cases that had predecessors
-        sample = rr.sample(cand, min(cfg.get("fresh_sample", 96), len(cand)))
+        n_sample = min(cfg.get("fresh_sample", 96), len(cand))
+        # stratified: from a 20x larger uniform pool, first make sure every spec feature seen in the pool
+        # (rarest first: a particular unsupported regex construct, a rare refinement ...) is re-run a few
+        # times, then fill up uniformly -- state left behind by rare code paths is what this oracle is for
+        pool = rr.sample(cand, min(20 * n_sample, len(cand)))
+        by_feat = {}
+        for i in pool:
+            fs = set()
+            for sp in gen_case((seed, pid, i), cfg)["specs"]:
+                fs |= spec_features(sp)
+            for f in fs:
+                by_feat.setdefault(f, []).append(i)
+        sample, chosen = [], set()
+        for f in sorted(by_feat, key=lambda f: (len(by_feat[f]), f)):
+            for i in by_feat[f][:3]:
+                if len(sample) < (3 * n_sample) // 4 and i not in chosen:
+                    chosen.add(i)
+                    sample.append(i)
+        for i in pool:
+            if len(sample) >= n_sample:
+                break
+            if i not in chosen:
+                chosen.add(i)
+                sample.append(i)
+        probes["fresh_sample_features_covered"] = sum(1 for f in by_feat if any(i in chosen for i in by_feat[f]))
         n_fresh = 0
         for k in range(0, len(sample), 16):
             batch = sample[k:k + 16]
@@ -319,11 +343,16 @@ def run_check_c17(tier, seed, workers=None, cases=None):
         "wall_s": round(wall_s, 2),
         "violations": len(new_viol),
     }
+    from .reach import report as reach_report
+    ev["coverage"]["reach"] = reach_report(pid, ev["coverage"])
     os.makedirs(os.path.join(R.out_dir(), "evidence"), exist_ok=True)
     with open(os.path.join(R.out_dir(), "evidence", "%s.json" % pid), "w") as f:
         json.dump(ev, f, indent=1, default=str, sort_keys=True)
     for l in out_lines:
         print(l)
+    if ev["coverage"]["reach"]["not_reached"]:
+        print("REACH-GAP: %d of %d expected probes not hit: %s" % (len(ev["coverage"]["reach"]["not_reached"]), ev["coverage"]["reach"]["expected"],
+                                                                  ", ".join(ev["coverage"]["reach"]["not_reached"][:8])))
     print("cases=%d configs=%d executions=%d distinct=%d cross-interpreter-mismatches=%d (rechecked masked: %d) wall=%.1fs violations=%d known=%s" % (
         compared, len(H), tot["executions"] + server_calls, len(keys), len(mism), n_masked_checks, wall_s, len(new_viol), sorted(kf_seen)), flush=True)
     if harness_errors:
